@@ -64,6 +64,11 @@ func checkDuration(c DurCase) error {
 	if back != d {
 		return fmt.Errorf("Duration(%d): round trip through %q gives %d", c.D, text, int64(back))
 	}
+	// A receiver that already holds a value decodes to the same result.
+	dirty := timeutil.Duration(-987654321)
+	if err = dirty.UnmarshalText(text); err != nil || dirty != d {
+		return fmt.Errorf("Duration(%d): UnmarshalText(%q) into a receiver that already held a value gives %d, %v", c.D, text, int64(dirty), err)
+	}
 	// JSON uses the text form.
 	j, err := json.Marshal(d)
 	if err == nil {
@@ -151,6 +156,10 @@ func checkHostPort(c HPCase) error {
 	if err = u.UnmarshalText(text); err != nil || u != hp {
 		return fmt.Errorf("HostPort{%s, %d}: UnmarshalText(%s) = %+v, %v", vp.Q(host), c.Port, vp.Q(string(text)), u, err)
 	}
+	dirty := netutil.HostPort{Host: "stale.example", Port: 9}
+	if err = dirty.UnmarshalText(text); err != nil || dirty != hp {
+		return fmt.Errorf("HostPort{%s, %d}: UnmarshalText(%s) into a receiver that already held a value = %+v, %v", vp.Q(host), c.Port, vp.Q(string(text)), dirty, err)
+	}
 	if strings.ContainsAny(host, ":%") {
 		vp.Class("hostport:host-with-colon-or-percent")
 		vp.NonTrivialStr("c14.hostport", host, fmt.Sprint(c.Port))
@@ -193,6 +202,12 @@ func checkPrefix(c PrefixCase) error {
 	s := string(c.S)
 	var p netutil.Prefix
 	err := p.UnmarshalText([]byte(s))
+	// A receiver that already holds a prefix gives the same outcome, and the
+	// same value when the text is accepted.
+	dirty := netutil.Prefix{Prefix: netip.MustParsePrefix("2001:db8::/33")}
+	if derr := dirty.UnmarshalText([]byte(s)); (derr == nil) != (err == nil) || (err == nil && dirty != p) {
+		return fmt.Errorf("Prefix.UnmarshalText(%s): a fresh receiver gives %v, %v; one that already held a prefix gives %v, %v", vp.Q(s), p.Prefix, err, dirty.Prefix, derr)
+	}
 	switch {
 	case strings.Contains(s, "/"):
 		want, werr := netip.ParsePrefix(s)
@@ -311,6 +326,15 @@ func checkURL(c URLCase) error {
 	if got := back.String(); got != want {
 		return fmt.Errorf("URL %s: text round trip gives %s, want %s", vp.Q(raw), vp.Q(got), vp.Q(want))
 	}
+	// Receivers that already hold a URL (with every component set) decode to
+	// the same result as fresh ones.
+	dirty, derr := urlutil.Parse("https://user:pw@stale.example:81/p%2Fq?q=1#frag")
+	if derr != nil {
+		return fmt.Errorf("harness: %v", derr)
+	}
+	if err = dirty.UnmarshalText(text); err != nil || dirty.String() != want {
+		return fmt.Errorf("URL %s: UnmarshalText(%s) into a receiver that already held a URL gives %s, %v; want %s", vp.Q(raw), vp.Q(string(text)), vp.Q(dirty.String()), err, vp.Q(want))
+	}
 	if !utf8.ValidString(want) {
 		vp.Class("url:accepted-invalid-utf8(text leg only)")
 		return nil
@@ -325,6 +349,10 @@ func checkURL(c URLCase) error {
 	}
 	if got := jb.String(); got != want {
 		return fmt.Errorf("URL %s: JSON round trip through %s gives %s, want %s", vp.Q(raw), j, vp.Q(got), vp.Q(want))
+	}
+	dirtyJ, _ := urlutil.Parse("https://user:pw@stale.example:81/p%2Fq?q=1#frag")
+	if err = json.Unmarshal(j, dirtyJ); err != nil || dirtyJ.String() != want {
+		return fmt.Errorf("URL %s: json.Unmarshal(%s) into a receiver that already held a URL gives %s, %v; want %s", vp.Q(raw), j, vp.Q(dirtyJ.String()), err, vp.Q(want))
 	}
 	type wrap struct {
 		U *urlutil.URL            `json:"u"`
